@@ -146,8 +146,9 @@ def verify(code=None, filename=DEFAULT_STUDENT_FILENAME, report=MAIN_REPORT,
                      sys.exc_info(), report=report, muted=muted, enhance=enhance)
         report[TOOL_NAME]['success'] = False
         report[TOOL_NAME]['ast'] = ast.parse("")
-    except (MemoryError, RecursionError) as e:
-        # The parser gave up on this source (e.g., an absurdly long or deep expression);
+    except (MemoryError, RecursionError, ValueError) as e:
+        # The parser gave up on this source (e.g., an absurdly long or deep expression,
+        # or text that cannot be encoded such as a lone surrogate);
         # that is a rejection too, although CPython does not call it a SyntaxError.
         error = SyntaxError(str(e) or type(e).__name__)
         error.filename = filename
